@@ -80,12 +80,9 @@ func NewPebbleScanner(dbPath string, opts PebbleScannerOptions) (*PebbleScanner,
 	// 1. Path Sanitization
 	// We prevent the engine from initializing in sensitive system roots.
 	// This captures cases where a misconfigured env var points the DB to /etc or /root.
-	absPath, err := filepath.EvalSymlinks(dbPath)
+	absPath, err := resolveDBLocation(dbPath)
 	if err != nil {
-		if !os.IsNotExist(err) {
-			return nil, fmt.Errorf("failed to resolve absolute path for db: %w", err)
-		}
-		absPath, _ = filepath.Abs(dbPath)
+		return nil, fmt.Errorf("failed to resolve absolute path for db: %w", err)
 	}
 	// Restricts database operations to non critical directories.
 	// Initializing a database in system roots could allow an attacker
@@ -93,11 +90,15 @@ func NewPebbleScanner(dbPath string, opts PebbleScannerOptions) (*PebbleScanner,
 	if runtime.GOOS == "linux" {
 		sensitivePrefixes := []string{"/etc", "/root", "/usr", "/bin", "/sbin", "/boot"}
 		for _, sp := range sensitivePrefixes {
-			if strings.HasPrefix(absPath, sp) {
+			if absPath == sp || strings.HasPrefix(absPath, sp+string(filepath.Separator)) {
 				return nil, fmt.Errorf("security violation: refusing to initialize database in system directory %q", absPath)
 			}
 		}
 	}
+
+	// Open exactly the location that was checked: the spelling as given may denote a
+	// different place for the kernel (".." after a symlink, PWD through a symlink).
+	dbPath = absPath
 
 	if opts.MatchThreshold == 0 {
 		opts.MatchThreshold = 0.75
@@ -176,6 +177,34 @@ func NewPebbleScanner(dbPath string, opts PebbleScannerOptions) (*PebbleScanner,
 	}
 
 	return scanner, nil
+}
+
+// resolveDBLocation returns the absolute, symlink-free location the database would
+// occupy. The path need not exist yet: the longest existing ancestor is resolved and the
+// remaining (not yet existing) components are appended to it.
+func resolveDBLocation(dbPath string) (string, error) {
+	abs, err := filepath.Abs(dbPath)
+	if err != nil {
+		return "", err
+	}
+	existing := abs
+	var rest []string
+	for {
+		resolved, err := filepath.EvalSymlinks(existing)
+		if err == nil {
+			parts := append([]string{resolved}, rest...)
+			return filepath.Join(parts...), nil
+		}
+		if !os.IsNotExist(err) {
+			return "", err
+		}
+		parent := filepath.Dir(existing)
+		if parent == existing {
+			return abs, nil
+		}
+		rest = append([]string{filepath.Base(existing)}, rest...)
+		existing = parent
+	}
 }
 
 func (s *PebbleScanner) Close() error {
